@@ -864,8 +864,82 @@ def unit_selection():
                       "end Selection", ""])
 
 
+def unit_formateq():
+    """what makes two point formats equal for the writer's and the appender's refusal of foreign records: the attributes compared by
+    `DimensionInfo.__eq__` (a conjunction of `self.a == other.a` / `np.all(self.a == other.a)`) and the shape of `PointFormat.__eq__`
+    (ids first; the extra dimensions paired by `zip_longest`, a missing partner or an unequal pair gives False; otherwise True)"""
+    import ast
+    import inspect
+    import textwrap
+    from laspy.point.dims import DimensionInfo
+    from laspy.point.format import PointFormat
+
+    fd = ast.parse(textwrap.dedent(inspect.getsource(DimensionInfo.__eq__))).body[0]
+    body = [st for st in fd.body if not (isinstance(st, ast.Expr) and isinstance(st.value, ast.Constant))]
+    if len(body) != 1 or not isinstance(body[0], ast.Return):
+        raise TranslationError("DimensionInfo.__eq__: expected a single return")
+    e = body[0].value
+    conj = e.values if isinstance(e, ast.BoolOp) and isinstance(e.op, ast.And) else [e]
+    fields = []
+    for c in conj:
+        if isinstance(c, ast.Call) and dotted(c.func) in ("np.all", "numpy.all") and len(c.args) == 1 and not c.keywords:
+            c = c.args[0]
+        if not (isinstance(c, ast.Compare) and len(c.ops) == 1 and isinstance(c.ops[0], ast.Eq)):
+            raise TranslationError("DimensionInfo.__eq__: a conjunct is not an equality")
+        l, r = dotted(c.left), dotted(c.comparators[0])
+        if not (l and r and l.startswith("self.") and r.startswith("other.") and l[5:] == r[6:]):
+            raise TranslationError("DimensionInfo.__eq__: a conjunct does not compare the same attribute of self and other")
+        fields.append(l[5:])
+    # the attributes are the NamedTuple's own fields or derived from them alone
+    tuple_fields = list(DimensionInfo._fields)
+
+    fd = ast.parse(textwrap.dedent(inspect.getsource(PointFormat.__eq__))).body[0]
+    body = [st for st in fd.body if not (isinstance(st, ast.Expr) and isinstance(st.value, ast.Constant))]
+    other = fd.args.args[1].arg
+
+    def returns(st, val):
+        return isinstance(st, ast.Return) and isinstance(st.value, ast.Constant) and st.value.value is val
+
+    ok = len(body) == 3
+    if ok:
+        a, loop, last = body
+        ok = (isinstance(a, ast.If) and isinstance(a.test, ast.Compare) and isinstance(a.test.ops[0], ast.NotEq)
+              and {dotted(a.test.left), dotted(a.test.comparators[0])} == {"self.id", other + ".id"} and len(a.body) == 1 and returns(a.body[0], False)
+              and not a.orelse and returns(last, True) and isinstance(loop, ast.For) and not loop.orelse)
+    if not ok:
+        raise TranslationError("PointFormat.__eq__: expected `if self.id != other.id: return False`, a loop over the paired extra dimensions, `return True`")
+    it = loop.iter
+    if not (isinstance(it, ast.Call) and dotted(it.func) in ("zip_longest", "itertools.zip_longest", "zip") and len(it.args) == 2 and not it.keywords
+            and {dotted(it.args[0]), dotted(it.args[1])} == {"self.extra_dimensions", other + ".extra_dimensions"}
+            and isinstance(loop.target, ast.Tuple) and len(loop.target.elts) == 2):
+        raise TranslationError("PointFormat.__eq__: the loop does not pair self.extra_dimensions with other.extra_dimensions")
+    longest = dotted(it.func) != "zip"
+    x, y = (t.id for t in loop.target.elts)
+    none_false, ne_false = False, False
+    for st in loop.body:
+        if not (isinstance(st, ast.If) and len(st.body) == 1 and returns(st.body[0], False) and not st.orelse):
+            raise TranslationError("PointFormat.__eq__: unexpected statement in the loop")
+        t = st.test
+        if isinstance(t, ast.BoolOp) and isinstance(t.op, ast.Or) and len(t.values) == 2 and all(
+                isinstance(v, ast.Compare) and isinstance(v.ops[0], ast.Is) and isinstance(v.comparators[0], ast.Constant)
+                and v.comparators[0].value is None for v in t.values) and {t.values[0].left.id, t.values[1].left.id} == {x, y}:
+            none_false = True
+        elif isinstance(t, ast.Compare) and isinstance(t.ops[0], ast.NotEq) and {dotted(t.left), dotted(t.comparators[0])} == {x, y}:
+            ne_false = True
+        else:
+            raise TranslationError("PointFormat.__eq__: unexpected test in the loop")
+    if not ne_false:
+        raise TranslationError("PointFormat.__eq__: unequal pairs are not refused")
+    return "\n".join(["namespace FormatEq",
+                      f"def dimFields : List String := {lean_list(lean_str(f) for f in fields)}",
+                      f"def tupleFields : List String := {lean_list(lean_str(f) for f in tuple_fields)}",
+                      "def comparesId : Bool := true",
+                      f"def pairsAll : Bool := {'true' if (longest and none_false) else 'false'}",
+                      "end FormatEq", ""])
+
+
 FUN_UNITS = [("GE", unit_ge), ("Compression", unit_compression), ("Dims", unit_dims), ("Copc", unit_copc), ("Reader", unit_reader),
-             ("Views", unit_views), ("Order", unit_order), ("Selection", unit_selection)]
+             ("Views", unit_views), ("Order", unit_order), ("Selection", unit_selection), ("FormatEq", unit_formateq)]
 
 
 # --------------------------------------------------------------------------
